@@ -261,11 +261,13 @@ def compare_with_plan(run: common.Run, rep: Dict[str, Any], groups, bad, plan, l
 
 
 def check_opmode(run: common.Run, drv: common.Driver, rng: random.Random, sc: R.Scratch, n_schemas: int, n_values: int,
-                 pid: str, exec_configs: List[Dict[str, Any]], overdriven: bool = False, parse: bool = True) -> None:
+                 pid: str, exec_configs: List[Dict[str, Any]], overdriven: bool = False, parse: bool = True,
+                 presets: Optional[List[G.Schema]] = None) -> None:
     opts = props_c.traditional_opts()
-    for k in range(n_schemas):
+    presets = list(presets or [])
+    for k in range(n_schemas + len(presets)):
         g = G.SchemaGen(rng, opts)
-        s = g.schema()
+        s = presets[k] if k < len(presets) else g.schema()
         text = G.schema_text(s, rng)
         base = f"{pid.lower()}o{k}_{rng.randrange(1 << 30)}"
         path = sc.write(f"{base}.bitproto", text)
@@ -311,14 +313,20 @@ def check_opmode(run: common.Run, drv: common.Driver, rng: random.Random, sc: R.
         focused = len(run.notes.get("plan_mismatches", [])) + len(run.notes.get("model_disagreements", [])) > before
         if focused:
             exec_configs = EXEC_ALL
+        if k < len(presets):
+            # megabytes of straight-line C: compiled without optimisation (the statements are what is under test, not gcc)
+            exec_configs_k = [{"name": "O-little(-O0)", "endian": "little", "cflags": ("-O0",)},
+                              {"name": "O-both-BP_BIG_ENDIAN(-O0)", "endian": "both", "cflags": ("-O0", "-DBP_BIG_ENDIAN")}]
+        else:
+            exec_configs_k = exec_configs
         jobs = []
         for m in msgs:
-            for _ in range(60 if focused else n_values):
+            for _ in range(2 if k < len(presets) else 60 if focused else n_values):
                 v = G.rand_msg_value(rng, m)
                 if overdriven:
                     v = props_c.overdrive(rng, G.TRef(m), v)
                 jobs.append((m, v))
-        if not jobs or not exec_configs:
+        if not jobs or not exec_configs_k:
             continue
         reqs = []
         for (m, v) in jobs:
@@ -353,7 +361,7 @@ def check_opmode(run: common.Run, drv: common.Driver, rng: random.Random, sc: R.
                     run.violation(dict(rep, kind="impl-vs-spec", expected_by_spec=spec, observed_impl={"bytes": got}))
                 elif dv != v:
                     run.violation(dict(rep, kind="impl-vs-spec", expected_by_spec={"decode": v}, observed_impl={"decode": dv}))
-        for cfg in exec_configs:
+        for cfg in exec_configs_k:
             try:
                 mod = C.CModule(sc, s, text, base, cflags=cfg.get("cflags", ("-O2",)), optimize=True, endian=cfg["endian"])
             except Exception as e:
@@ -405,8 +413,33 @@ def finish_plan(run: common.Run) -> None:
         run.notes["plan_mismatches"] = pm[:5]
 
 
+def huge_schema() -> G.Schema:
+    """one message whose -O functions have many thousands of statements (a generator that splits or batches long bodies must
+    still produce the same bytes in every variant)"""
+    sample = G.MsgDef("Sample", False)
+    sample.fields = [G.Field("a", 1, G.TInt(12)), G.Field("b", 2, G.TInt(12))]
+    huge = G.MsgDef("Huge", False)
+    huge.fields = [G.Field("head", 1, G.TUint(5)), G.Field("samples", 2, G.TArray(G.TRef(sample), 1400, False)), G.Field("tail", 3, G.TUint(8))]
+    return G.Schema("hugecase", [sample, huge])
+
+
+def rows_schema() -> G.Schema:
+    """byte-aligned arrays of eight and more one-byte elements - real bytes, and aliases of small arrays whose ROW is one byte
+    on the wire but eight cells in memory"""
+    row = G.AliasDef("Row", G.TArray(G.TBool(), 8, False))
+    nib = G.AliasDef("Nib", G.TArray(G.TUint(4), 2, False))
+    duo = G.AliasDef("Duo", G.TArray(G.TUint(2), 4, False))
+    oct_ = G.AliasDef("Octet", G.TByte())
+    m = G.MsgDef("Rows", False)
+    m.fields = [G.Field("pad", 1, G.TUint(8)), G.Field("rows", 2, G.TArray(G.TRef(row), 8, False)), G.Field("nibs", 3, G.TArray(G.TRef(nib), 9, False)),
+                G.Field("duos", 4, G.TArray(G.TRef(duo), 8, False)), G.Field("raw", 5, G.TArray(G.TByte(), 10, False)),
+                G.Field("octs", 6, G.TArray(G.TRef(oct_), 8, False)), G.Field("u", 7, G.TArray(G.TUint(8), 9, False)),
+                G.Field("i", 8, G.TArray(G.TInt(8), 8, False)), G.Field("tail", 9, G.TUint(8))]
+    return G.Schema("rowscase", [row, nib, duo, oct_, m])
+
+
 def check_c04(run, drv, rng, sc, n_schemas: int, n_values: int) -> None:
-    check_opmode(run, drv, rng, sc, n_schemas, n_values, "C04", EXEC_ALL)
+    check_opmode(run, drv, rng, sc, n_schemas, n_values, "C04", EXEC_ALL, presets=[huge_schema(), rows_schema()])
     finish_plan(run)
 
 
